@@ -15,7 +15,7 @@ DEVIATIONS = {
     "RateNonMonotone": ("C25_Monotone", "monitor"), "NoTruncOnQuery": ("C25_FunctionOfWindow", "monitor"),
     "NoCap": ("C25_FunctionOfWindow", "monitor"),
     "ProduceNotChecked": ("C25_Gate", "gate"), "FetchNotChecked": ("C25_Gate", "gate"), "DegradedPasses": ("C25_Gate", "gate"),
-    "GateHoisted": ("C25_Gate", "gate"),
+    "GateHoisted": ("C25_Gate", "gate"), "IgnoreCtxErrors": ("C25_FunctionOfWindow", "gate"),
 }
 DEV_WIN, DEV_MAXN = 2, 2      # constants of the Dev_*.cfg files
 SIM_WIN, SIM_MAXN = 3, 3      # constants of the Sim_*.cfg files
@@ -34,6 +34,7 @@ TRACE_CFG = """CONSTANTS
  DevHealthNotChecked <- None
  DevDegradedPasses = FALSE
  DevGateHoisted = FALSE
+ DevIgnoreCtxErrors = FALSE
 INIT TInit
 NEXT TNext
 POSTCONDITION Reached
@@ -71,7 +72,8 @@ def gate_harness(ctx, scheds, tag):
                 steps.append({"a": "Req", "api": "Produce" if st["kind"] == "produce" else "Fetch", "tg": [["tk", 0]], "perms": ALL_PERMS, "probe": st["kind"]})
             elif st["a"] == "Produce2":
                 # one produce for tk/0 and tk/1; the bucket refuses the uploads of tk/0
-                steps.append({"a": "Req", "api": "Produce", "tg": [["tk", 0], ["tk", 1]], "perms": ALL_PERMS, "probe": "produce2", "s3fail": [["tk", 0]]})
+                steps.append({"a": "Req", "api": "Produce", "tg": [["tk", 0], ["tk", 1]], "perms": ALL_PERMS, "probe": "produce2", "s3fail": [["tk", 0]],
+                              "s3err": "timeout" if st.get("ctx") else "plain"})
             elif st["a"] == "Query":
                 steps.append({"a": "S3Query"})
             else:
@@ -94,7 +96,7 @@ def gate_harness(ctx, scheds, tag):
         elif r["ev"] == "S3Query":
             rows.append({"ev": "Query", "now": 0, "st": r["health"], "stored": r["stored"], "sstate": r["health"]})
         elif r["ev"] == "Req" and r["probe"] == "produce2":
-            rows.append({"ev": "Produce2", "nerr": r["nfail"], "st": r["items"][1]["healthAt"],
+            rows.append({"ev": "Produce2", "nerr": r["nfail"], "ctx": r.get("s3err") == "timeout", "st": r["items"][1]["healthAt"],
                          "items": [{"st": it["healthAt"], "acked": it["code"] == 0, "data": False, "code": it["code"], "uploaded": it["uploaded"]} for it in r["items"]]})
         elif r["ev"] == "Req":
             it = r["items"][0]
